@@ -13,7 +13,7 @@ BOUNDS = dict(quick='L1: n = 4 points (x = 0..3), interior heights symbolic in [
               thorough='L1: n <= 5, dx in {1/20,1/4,1/2,1}, dy in {1/20,1/5,1/2}, dz in {1/2,1,3/2}, x_max / y_range overrides; L0: 4 curves, every position')
 ASSUMPTIONS = ['exact real arithmetic (T1)', 'x strictly increasing non-negative integers, y in [0,1] (miss-ratio-like curve)',
                'dx, dy, dz range over the listed concrete values only (symbolic step sizes are outside the claim)', 'L1: |z| <= 7/2']
-CONFIG = dict(quick=dict(budget_s=175, case_wall_s=150, max_paths=30000, nra_at_decide=False), thorough=dict(budget_s=900, case_wall_s=700, max_paths=400000, nra_at_decide=False))
+CONFIG = dict(quick=dict(budget_s=175, case_wall_s=150, max_paths=30000, nra_at_decide=False), thorough=dict(max_cases=500, budget_s=900, case_wall_s=700, max_paths=400000, nra_at_decide=False))
 
 MRC = [
     [[0, '1'], [1, '0.6'], [2, '0.55'], [4, '0.3'], [5, '0.28'], [8, '0.1']],
